@@ -154,4 +154,39 @@ def V2(ctx: Ctx) -> RuleResult:
     return r
 
 
-RULES = {'V1': V1, 'V2': V2}
+def V3(ctx: Ctx) -> RuleResult:
+    r = RuleResult('V3', 'kind flags: every constant is_<kind> property of the AST classes (is_value, is_literal, is_set, is_range, is_reference, is_accessor, is_operator, is_quantifier, is_function_call, is_vacuous, ...) resolves, for every class, to the value of the reference table: True exactly in the class(es) the flag names')
+    import json
+    from .report import VERIF
+    table = json.loads((VERIF / 'oracle' / 'kind_flags.json').read_text())
+    ref = table['true_in']
+    known_classes = set(table['classes'])
+    classes = {c.name: c for c in ctx.model.ast_classes()}
+    n = 0
+    for flag, true_in in sorted(ref.items()):
+        holders = [c for c in classes.values() if c.resolve(flag) is not None]
+        if not holders:
+            raise AnalysisError('V3', f'no AST class defines {flag} any more (anchor vanished)')
+        for c in holders:
+            fi = c.resolve(flag)
+            outs = ctx.ev.run(fi, {'self': Sym('self', c.name)}, self_cls=c)
+            v = outs[0].value if len(outs) == 1 and outs[0].kind == 'return' else None
+            if not (isinstance(v, Const) and isinstance(v.value, bool)):
+                r.notes.append(f'{c.name}.{flag} is not a constant any more: {str(v)[:60]}')
+                continue
+            n += 1
+            want = c.name in true_in
+            if c.name not in known_classes:
+                # a class the table does not know (a new node kind, or an intermediate base class introduced by a
+                # refactoring): not judged; the classes below it that the table knows are
+                if f'{c.name}: class not in the reference table' not in r.notes:
+                    r.notes.append(f'{c.name}: class not in the reference table')
+                continue
+            if v.value != want:
+                r.fail(f'{c.name}.{flag}', f'{c.name}.{flag} is {v.value}, the reference says {want}: every test of the node kind in the rewriter, the type checker and the reference queries reads this flag', fi.where, want, v.value)
+    r.counts['(class, flag) pairs'] = n
+    r.floor('(class, flag) pairs', n, 200)
+    return r
+
+
+RULES = {'V1': V1, 'V2': V2, 'V3': V3}
